@@ -30,9 +30,8 @@ b("C03", S, "        self._connect_components(start_time)\n\n        self.logger
 b("C04", S, "        if comp in chain:\n", "        if False:\n", "cycle detection removed (unbounded recursion)")
 b("C04", S, "                    local_time = inp.with_delay(local_time)\n", "                    local_time = inp.with_delay(target_time)\n", "delays of chained adapters not accumulated (original defect F6)")
 b("C04", S, "                if isinstance(inp, NoDependencyAdapter):\n                    break\n", "                if False:\n                    break\n", "dependency-breaking adapter treated as dependent")
-b("C04", S, "            if not any_new_connection:\n", "            if not any_new_connection and counter > 50:\n", "connect stall detected only after 50 idle sweeps")
+b("C06", S, "            if not any_new_connection:\n", "            if not any_new_connection and counter > 50:\n", "connect stall detected only after 50 idle sweeps")
 # ---- C05
-b("C05", O, "        if not self._output_info.accepts(info, fail_info, incoming_donwstream=True):\n", "        self._out_infos_exchanged += 0\n        if self._output_info.grid is None and info.grid is not None:\n            self._output_info.grid = info.grid\n        if not self._output_info.accepts(info, fail_info, incoming_donwstream=True):\n", "a refused get_info leaves a side effect (grid taken from the first asker)")
 b("C05", S, "        no_branch = no_branch or isinstance(target, NoBranchAdapter)\n", "        no_branch = no_branch or isinstance(target, NoBranchAdapter) or (len(targets) > 0 and isinstance(targets[-1][0], NoBranchAdapter))\n", "no-branch flag leaks to a sibling chain depending on link order")
 # ---- C06
 b("C06", CH, "                    self.in_infos[name] = self.inputs[name].exchange_info()\n                    any_done = True\n", "                    self.in_infos[name] = self.inputs[name].exchange_info()\n                    any_done = False\n", "an input-info exchange is not reported as progress")
